@@ -80,6 +80,8 @@ OPERATORS = {
     '<>': operator.ne,
 }
 
+SIMPLE_SHEETNAME_RE = re.compile(r'^[^\W\d][\w.]*\Z')
+
 # (the value can be a text with line breaks)
 OPERATORS_RE = re.compile(
     r'^(?P<oper>(=|<>|<=?|>=?))?(?P<value>.*)\Z', re.DOTALL)
@@ -130,7 +132,8 @@ class AddressMixin:
 
     @staticmethod
     def quote_sheet(sheet):
-        if ' ' in sheet:
+        if not SIMPLE_SHEETNAME_RE.match(sheet):
+            # blanks, punctuation, a leading digit ... need quotes in a formula
             sheet = quote_sheetname(sheet)
         return sheet
 
